@@ -161,6 +161,23 @@ def gen_link_matrix(rng):
     return lines
 
 
+def gen_dup_corrupt(rng):
+    """C05: duplication and corruption together, with payloads on which the corruption function is not idempotent (JSON arrays
+    of strings; `"a"b"`): every copy of a send carries the payload sent or its one canonical corruption, whatever happened to the other copies"""
+    seed = rng.randrange(DEFAULT["seeds"])
+    lines = [f"seed {seed}", f"draws {draws_for(seed)}", "node n0", "node n1", "proc p0 n0", "proc p1 n1 rec"]
+    # (no colons: the colon separates the fields of an action in the scenario language)
+    pay = rng.sample(['=["k","v"]', '=["key","k1","value","ping"]', '="a"b"', '=x"y"z"w"', '=["a","b"]', '="a""b"', '=[["a"],["b","c"]]'], 3)
+    sends = " ".join(f"S:m{j + 1}:{pay[j]}:p1" for j in range(3))
+    lines += [f"rule p0 0 L:m0 0 {sends}", "rule p1 0 M:m1 0 L:m4:$", "rule p1 0 M:m2 0 L:m4:$", "rule p1 0 M:m3 0 L:m4:$"]
+    lines += [f"net delays {rng.choice([0, 1])} {rng.choice([2, 3])}", f"net dupl {rng.choice(['2', fbits(0.75)])}",
+              f"net corrupt {rng.choice(['2', fbits(0.5), fbits(0.75)])}"]
+    for _ in range(rng.randint(1, 3)):
+        lines += ["local p0 m0 =go", rng.choice(["steps 4", "steps 12", "until_none"])]
+    lines += ["until_none", "read p1", "obs"]
+    return lines
+
+
 def time_laws_probe(v, tier, seed, name="time_laws_f64"):
     """The simulator theorems assume `LawfulTime T`; they are proved for `Ticks` and *trusted* for `f64`.  This probe samples the
     laws on IEEE doubles (Python floats are the same type, round-to-nearest): totality/transitivity of <=, a <= a + d for d >= 0,
